@@ -186,8 +186,9 @@ class Query:
         return ax
 
     # ------------------------------------------------------------------ emit / run
-    def text(self, get_model=True, axioms=True, enclosures=None):
+    def text(self, get_model=True, axioms=True, enclosures=None, extra=(), uf_values=False):
         ax = self.uf_axioms(enclosures) if axioms else []
+        ax = list(ax) + list(extra)
         lines = ["(set-option :pp.decimal true)", "(set-option :pp.decimal_precision 30)"]
         for f in sorted(self.ufs):
             lines.append(f"(declare-fun {f} (Real) Real)")
@@ -200,11 +201,74 @@ class Query:
         lines.append("(check-sat)")
         if get_model and self.vars:
             lines.append("(get-value (" + " ".join(self.vars) + "))")
+        if get_model and uf_values:
+            for fn, apps in self.uf_apps.items():
+                for (_, t, x) in apps:
+                    lines.append(f"(get-value ({t}))")
+                    lines.append(f"(get-value ((+ 0.0 {x})))")
         return "\n".join(lines) + "\n"
 
-    def check(self, timeout=20, solver="z3", axioms=True, enclosures=None, keep=None):
-        body = self.text(axioms=axioms, enclosures=enclosures)
-        return run_solver(body, timeout=timeout, solver=solver, label=self.label, keep=keep)
+    def check(self, timeout=20, solver="z3", axioms=True, enclosures=None, keep=None, cegar=4):
+        """Solve.  A sat model is only as good as the uninterpreted functions' values in it:
+        when the model assigns exp/log/... a value that the real function does not take at
+        that argument, a sound enclosure lemma around that point is added and the query is
+        re-solved (bounded CEGAR, DESIGN 3.3)."""
+        total = 0.0
+        lemmas = []
+        for rnd in range(cegar + 1):
+            body = self.text(axioms=axioms, enclosures=enclosures, extra=lemmas, uf_values=True)
+            r = run_solver(body, timeout=timeout, solver=solver, label=self.label + (f"#cegar{rnd}" if rnd else ""), keep=keep)
+            total += r.seconds
+            if r.status != "sat" or not r.model:
+                r.seconds = total
+                return r
+            new = self._refine(r.model)
+            if not new:
+                r.seconds = total
+                r.cegar_rounds = rnd
+                return r
+            lemmas += new
+        r.status = "unknown"
+        r.raw = "cegar rounds exhausted: every model used impossible values of an uninterpreted function"
+        STATS["sat"] -= 1; STATS["unknown"] += 1
+        r.seconds = total
+        return r
+
+    def _refine(self, model):
+        """Enclosure lemmas for UF applications whose model value is impossible."""
+        out = []
+        for fn, apps in self.uf_apps.items():
+            f = sym._MATH.get(fn)
+            if f is None:
+                continue
+            for (_, t, x) in apps:
+                tv, xv = model.get(t), model.get("arg_" + t)
+                if tv is None or xv is None or tv != tv or xv != xv:
+                    continue
+                if fn == "log" and xv <= 0: continue
+                if fn == "log1p" and xv <= -1: continue
+                if fn == "sqrt" and xv < 0: continue
+                try:
+                    fv = f(xv)
+                except (OverflowError, ValueError):
+                    continue
+                if abs(fv - tv) <= 1e-7 * (1 + abs(fv)):
+                    continue
+                d = 0.02 * (1 + abs(xv))
+                lo_x, hi_x = xv - d, xv + d
+                if fn == "log": lo_x = max(lo_x, xv / 2)
+                if fn == "log1p": lo_x = max(lo_x, (xv - 1) / 2)
+                if fn == "sqrt": lo_x = max(lo_x, 0.0)
+                try:
+                    flo, fmid, fhi = f(lo_x), fv, f(hi_x)
+                except (OverflowError, ValueError):
+                    continue
+                w = lambda v, up: v + (abs(v) * 1e-12 + 1e-300) * (1 if up else -1)
+                Q = lambda v: _num(Fraction(v))
+                out.append(f"(=> (and (>= {x} {Q(lo_x)}) (<= {x} {Q(hi_x)})) (and (>= {t} {Q(w(flo, False))}) (<= {t} {Q(w(fhi, True))})))")
+                out.append(f"(=> (<= {x} {Q(xv)}) (<= {t} {Q(w(fmid, True))}))")
+                out.append(f"(=> (>= {x} {Q(xv)}) (>= {t} {Q(w(fmid, False))}))")
+        return out
 
 
 class Result:
@@ -313,11 +377,18 @@ def parse_model(txt):
     toks = _TOK.findall(txt)
     if not toks:
         return {}
-    sx, _ = _sexp(toks, 0)
     out = {}
-    for pair in sx:
-        if isinstance(pair, list) and len(pair) == 2 and isinstance(pair[0], str):
-            out[pair[0]] = _val(pair[1])
+    i, last = 0, None
+    while i < len(toks):
+        sx, i = _sexp(toks, i)
+        if not isinstance(sx, list):
+            continue
+        for pair in sx:
+            if isinstance(pair, list) and len(pair) == 2:
+                if isinstance(pair[0], str):
+                    out[pair[0]] = _val(pair[1]); last = pair[0]
+                elif last is not None:
+                    out["arg_" + last] = _val(pair[1])
     return out
 
 
